@@ -104,6 +104,26 @@ def simOp (j : Json) : Json :=
     | none, _ => Json.mkObj [("r", Json.str "ERR:unsupported")]
     | _, none => jErr "n"
 
+def orderOfJson (j : Json) : Order := match j with | .str "msq_first" => .msqFirst | _ => .lsqFirst
+
+def bitsJ (l : List Bool) : Json := Json.str (bitsToStr l)
+
+/-- backend-level exact simulation: {"op":"backend_sim","gates":[..],"n":w,"order":"lsq_first","init":null|[..],"thr":1e-10}
+    → statevector in the backend's order and exact frequencies -/
+def backendSimOp (j : Json) : Json :=
+  match gatesOfJson! (j.getObjValD "gates"), getNat? (j.getObjValD "n") with
+  | .ok gs, some n =>
+    match gatesToOps gs with
+    | none => Json.mkObj [("r", Json.str "ERR:unsupported")]
+    | some ops =>
+      let order := orderOfJson (j.getObjValD "order")
+      let init := match j.getObjValD "init" with | .null => none | ji => svOfJson? ji
+      let sv := simulateExact order n ops init
+      let (fr, margin) := frequencies order n sv (getFloat j "thr" 1e-10)
+      Json.mkObj [("sv", svToJson sv), ("freqs", Json.arr (fr.map (fun (k, p) => Json.arr #[bitsJ k, cycToJson p])).toArray),
+                  ("margin", Json.str (toString margin)), ("stable", Json.bool (margin > 1e-13))]
+  | _, _ => jErr "backend_sim: bad arguments"
+
 /-- are two gate lists the same operator on n qubits up to one global phase?
     Columns are compared on every basis state: U_b e_k = λ U_a e_k with one common λ. -/
 def semEqOp (j : Json) : Json :=
